@@ -12,6 +12,13 @@ Spaces (every listed product is crossed completely):
            excludenull=True.
   cm     : all pairs of category series (see bound_text) x ncat in {None, kmin, kmin+1}.
   bin    : all 2x2 tables over 1..6 (1..9) plus tables over a small set of large counts.
+  ladder : series lengths 7, 8, 9, ..., 1023, 1024, 1025 (thorough: .. 4097, 10001) x {Identity, Log} x
+           structured tie-rich (obs, sim) pairs -> every det score, mean-sim, invariances, corr (p = 1, 3),
+           excludenull with NaN/inf/out-of-domain values; category series of the same lengths over
+           2, 3, 6 and 7..200 categories.
+  layout : the ladder cases and the first case of every unit again with the same values held as
+           float32 / int64 / strided / negative-stride / read-only / [n,1] column / pandas objects /
+           Fortran order: the result of the float64 C-contiguous call is required.
 Oracle: textbook formulas in Fractions / 50-digit mpmath applied to trans.forward(obs),
 trans.forward(sim) of the same transform object.
 """
@@ -27,7 +34,16 @@ RULE = ("nested enumeration, each case generated once: (det) transform x every (
         "n-by-p ensemble x Pearson/Spearman x mean/median; (null) transform x every pair over finite letters "
         "+ NaN/+inf/-inf/out-of-domain letters keeping >= minok complete positions, excludenull=True; "
         "(cm) every pair of category series x ncat None/kmin/kmin+1; (bin) every 2x2 table of positive "
-        "counts over the stated sets. One case = one call of the real metrics function, compared with the "
+        "counts over the stated sets; (ladder) Identity and Log x every series length of the ladder 7,8,9,15,16,17,...,1023,"
+        "1024,1025 (+100, 500, 501, 1000, 1001; thorough ..4097, 10001) x structured pairs over the same dyadic alphabet "
+        "(aperiodic-marked pattern, perfect simulation, integer-valued pair): every det score with both excludenull, "
+        "mean simulation, affine/scale invariances, corr with p = 1 and p = 3 members (4 variants), excludenull with "
+        "NaN/+-inf/out-of-domain values scattered in both series; category series of every ladder length over 2, 3, 6 "
+        "categories and over 7, 33, 100, 200 categories x 2 patterns x ncat None/kmin/kmin+1; (layout) every ladder "
+        "case and the first case of every det/corr/cm/bin unit called again with the same values as float32, int64 "
+        "(when exactly representable), strided, negative-stride, read-only, [n,1] column, pandas Series/DataFrame, "
+        "Fortran-ordered ensemble, narrow integer / bool category arrays: must reproduce the float64 C-contiguous "
+        "call. One case = one call of the real metrics function, compared with the "
         "textbook formula evaluated in Fractions/mpmath on trans.forward(obs), trans.forward(sim) taken from "
         "the same transform object. Non-trivial = the call is judged (observations non-degenerate and the "
         "textbook value defined). Distinct by construction (distinct argument tuples).")
@@ -42,6 +58,10 @@ ASSUMPTIONS = [
     "binary: only the nine scores named in the property are judged (not EDS, not scores_rand); float tolerance 1e-9 relative (observed noise < 1e-14)",
     "ensemble NaN members, 2-D obs, the censored correlation type and default trans argument are outside the property text and not enumerated",
     "extension modules rebuilt from the working tree; metrics.bias/nse/kge/corr/confusion_matrix/binary are pure Python",
+    "size ladder: same Fraction/mpmath oracle on the Fractions of the transformed float64 values; tolerance unchanged (1e-9 relative; numpy pairwise sums keep the rounding noise below 1e-13 at n = 10001)",
+    "confusion_matrix beyond the quantifier's 6 categories (7, 33, 100, 200): the statement's counting rule is applied unchanged; keys carry ':ncat>6'",
+    "layout variants hold exactly the same values; a layout rejected with a Python exception is accepted and counted (e.g. Log of float32/int64 arrays: the safe cast back to the input dtype raises); results must equal the float64 C-contiguous call within 1e-9 relative, except float32 series, whose scores numpy evaluates in float32 (trans.forward returns the input dtype): tolerance 1e-4 there (observed float32 noise < 1e-6)",
+    "the [n,1] column layout is documented by bias/nse/kge/corr ('[n] or [n,1] array') and is judged; obs and sim are given in the same layout, plus sim alone as float32/int64",
 ]
 TECHNIQUE = "bounded exhaustive enumeration of inputs on the real functions vs exact (Fraction/mpmath) textbook formulas"
 
@@ -73,6 +93,13 @@ EXTRA = [
     {"name": "BoxCox2", "kw": {"nu": 1.0, "lam": -0.5, "minilam": -1.0}, "shift": 2.0, "od": [-3.0]},
 ]
 
+LADDER_Q = [7, 8, 9, 15, 16, 17, 31, 32, 33, 63, 64, 65, 100, 127, 128, 129, 255, 256, 257, 500, 501, 511, 512, 513,
+            1000, 1001, 1023, 1024, 1025]
+LADDER_T = LADDER_Q + [2047, 2048, 2049, 4095, 4096, 4097, 10001]
+LADDER_TRANS = [0, 1]                   # Identity, Log (indices of TRANS)
+LADDER_K = [2, 3, 6, 7, 33, 100, 200]   # category counts (the quantifier stops at 6; see ASSUMPTIONS)
+TOL32 = 1e-4                            # float32 series: numpy evaluates the score in float32 (observed noise < 1e-6)
+
 AFFINE = [(2.0, 0.0), (-0.5, 1.5), (1.0, -3.0), (1.0, 262144.0), (1.0, -262144.0)]   # the last two: |mean|/sd ~ 2e5, still non-degenerate (1e-6 relative)
 SCALES = [3.0, 0.25]
 TINY = 2.0 ** -40
@@ -90,12 +117,18 @@ def bound_text(tier, seed):
                 "n=3 5 letters Identity / 3 letters others; p=2 n=2 (Identity, Log), p=3 n=2 two-letter members; "
                 "null: n=3 >=2 complete, 6 letters Identity (with Spearman), 2 finite + NaN,+inf + out-of-domain letters others; "
                 "cm: {0,1} length<=4, {0,1,2} length<=3, 4..6 categories <=1 deviation; bin: all tables 1..6 (1296) + 256 tables over "
-                "{1,3,1000,60000+7*seed}" % (ex["name"], ex["kw"]))
+                "{1,3,1000,60000+7*seed}; ladder: Identity, Log x 29 lengths 7..1025 around powers of two x (3 det pairs, mean-sim, "
+                "invariances, corr p=1,3, excludenull with 6 null values); cm: 29 lengths x 7 category counts (2,3,6,7,33,100,200) x 2 "
+                "patterns x 3 ncat; layouts: up to 10 per 1-D series, 7 per ensemble, 11 per category series, 6 per table, on every "
+                "ladder case and the first case of every unit" % (ex["name"], ex["kw"]))
     return ("det: 7 transforms (6 fixed + seed-rotated %s%s), n=2,3 all pairs over 5 letters (both excludenull), n=4 all pairs over "
             "5 letters (Identity) / 4 letters (others); corr: p=1 n=2,3 5 letters all transforms, n=4 4 letters Identity; p=2 n=2 all "
             "transforms, n=3 3 letters Identity; p=3 n=2 3-letter members Identity; null: n=3 >=2 complete 3 finite + NaN,+inf,-inf + "
             "out-of-domain letters all transforms (with Spearman), n=4 >=3 complete 6 letters Identity; cm: {0,1} length<=6, {0,1,2} "
-            "length<=4, 4..6 categories <=2 deviations; bin: all tables 1..9 (6561) + 1296 tables over {1,2,7,1000,60000+7*seed,10^7}"
+            "length<=4, 4..6 categories <=2 deviations; bin: all tables 1..9 (6561) + 1296 tables over {1,2,7,1000,60000+7*seed,10^7}; "
+            "ladder: Identity, Log x 36 lengths 7..4097 around powers of two and 10001 x (3 det pairs, mean-sim, invariances, corr p=1,3, "
+            "excludenull with 6 null values); cm: 36 lengths x 7 category counts (2,3,6,7,33,100,200) x 2 patterns x 3 ncat; layouts: up "
+            "to 10 per 1-D series, 7 per ensemble, 11 per category series, 6 per table, on every ladder case and the first case of every unit"
             % (ex["name"], ex["kw"]))
 
 
@@ -598,6 +631,7 @@ def check_cm(ctx, M, obs, sim, ncat):
     union = set(obs) | set(sim)
     case = {"kind": "cm", "obs": list(obs), "sim": list(sim), "ncat": ncat}
     judged = True
+    kx = ":ncat>6" if kmin > 6 else ""        # beyond the quantifier's 2..6 categories (size ladder)
     if ncat is None:
         size = kmin
         mode = "inferred"
@@ -618,7 +652,7 @@ def check_cm(ctx, M, obs, sim, ncat):
             ctx.count("unjudged.cm.noncontiguous_inferred")
             return
         ctx.case(True, outcome="raise")
-        ctx.violation("confusion_matrix:raised:%s:ncat-%s" % (type(e).__name__, mode), case, "raised %r" % (e,))
+        ctx.violation("confusion_matrix:raised:%s:ncat-%s%s" % (type(e).__name__, mode, kx), case, "raised %r" % (e,))
         return
     if not judged:
         ctx.case(False, outcome=arr.tobytes())
@@ -633,13 +667,16 @@ def check_cm(ctx, M, obs, sim, ncat):
     for o, s in zip(obs, sim):
         exp[o][s] += 1
     if arr.shape != (size, size):
-        ctx.violation("confusion_matrix:shape:ncat-%s:absent-%s" % (mode, absent), case,
+        ctx.violation("confusion_matrix:shape:ncat-%s:absent-%s%s" % (mode, absent, kx), case,
                       "table shape %s, requested size (%d, %d)" % (arr.shape, size, size), observed=list(arr.shape), expected=[size, size])
         return
     if not np.array_equal(arr, np.array(exp, dtype=np.float64)):
-        ctx.violation("confusion_matrix:counts:ncat-%s:absent-%s" % (mode, absent), case,
-                      "counts %s, every (obs, sim) pair counted once gives %s" % (arr.tolist(), exp),
-                      observed=arr.tolist(), expected=exp)
+        small = size <= 6
+        ctx.violation("confusion_matrix:counts:ncat-%s:absent-%s%s" % (mode, absent, kx), case,
+                      "counts %s, every (obs, sim) pair counted once gives %s" % (
+                          arr.tolist() if small else "(%dx%d table, sum %r)" % (size, size, float(arr.sum())),
+                          exp if small else "a table differing in %d cells" % int((arr != np.array(exp, dtype=np.float64)).sum())),
+                      observed=arr.tolist() if small else None, expected=exp if small else None)
         return
     lab_ok = True
     try:
@@ -715,6 +752,338 @@ def check_binary(ctx, M, tn_, fp, fn, tp):
             ctx.violation("binary:cells:%s" % name, case, "%s = %r, expected %d" % (name, scores[name], cell))
     ctx.case(True, outcome=np.array(vals).tobytes())
 
+
+
+# ---------------------------------------------------------------------------
+# size ladder: structured series, same oracle
+
+def ladder_pair(kind, n, spec):
+    """structured tie-rich (obs, sim) of length n >= 7 over the transform's shifted dyadic alphabet.
+    gen     : obs[i] = a[(2i + i//7) % 5], sim[i] = a[(i + i//3) % 5], with distinct marker values at the first,
+              middle and last position (no tail / head / block of the series can be dropped or repeated unnoticed)
+    perfect : sim = obs (gen)
+    int     : the same index patterns over an integer-valued alphabet (int64 layout applies)"""
+    a = shifted(spec)
+    if kind == "int":
+        a = [-3.0, -2.0, -1.0, 1.0, 4.0] if spec["shift"] == 0.0 else [0.0, 1.0, 2.0, 4.0, 7.0]
+    top = a[4]
+    obs = [a[(2 * i + i // 7) % 5] for i in range(n)]
+    sim = [a[(i + i // 3) % 5] for i in range(n)]
+    obs[0], sim[0] = top + 4.0, a[3]
+    obs[n // 2], sim[n // 2] = top + 2.0, top + 5.0
+    obs[n - 1], sim[n - 1] = top + 8.0, top + 6.0
+    if kind == "perfect":
+        sim = list(obs)
+    return obs, sim
+
+
+def ladder_ens(n, spec, sim):
+    a = shifted(spec)
+    return [[sim[i], a[(3 * i + i // 5) % 5], a[(i // 2) % 5]] for i in range(n)]
+
+
+def ladder_null(n, spec, obs, sim):
+    """NaN / +-inf / out-of-domain values scattered in both series (>= 2 complete positions remain)"""
+    o, s = list(obs), list(sim)
+    o[1] = NAN
+    o[n // 2] = NAN
+    o[n - 2] = INF
+    s[3] = NAN
+    s[5] = -INF
+    s[n - 1] = NAN             # the last pair is incomplete
+    if spec["od"]:
+        s[4] = spec["od"][0]
+        o[n // 2 + 1] = spec["od"][-1]
+    return o, s
+
+
+def cm_ladder_pair(n, K, pattern):
+    obs = [(7 * i + i // K) % K for i in range(n)]
+    if pattern == 0:
+        sim = [(obs[i] + (1 + i // 11 if i % 3 == 0 else 0)) % K for i in range(n)]
+    else:
+        sim = [min(K - 2, (5 * i + i // 4) % K) if K > 2 else (i // 3) % 2 for i in range(n)]     # top category absent from sim (K > 2)
+    obs[n - 1], sim[n - 1] = K - 1, 0
+    obs[0], sim[0] = 0, (K - 1 if pattern == 0 else max(0, K - 2))
+    return obs, sim
+
+
+# ---------------------------------------------------------------------------
+# layout variants (differential against the float64 C-contiguous call)
+
+def arr_layouts(vals):
+    """[(name, object holding exactly the values of the 1-D float64 array)]"""
+    import pandas as pd
+    a = np.array(vals, dtype=np.float64)
+    n = len(a)
+    out = []
+    fin = np.isfinite(a)
+    with np.errstate(all="ignore"):
+        f32 = a.astype(np.float32)
+    if np.array_equal(f32.astype(np.float64), a, equal_nan=True):
+        out.append(("float32", f32))
+    if n and fin.all() and np.all(a == np.round(a)) and np.all(np.abs(a) < 2.0 ** 53):
+        out.append(("int64", a.astype(np.int64)))
+    big = np.full(2 * n + 1, 7.25)
+    big[1::2] = a
+    out.append(("strided", big[1::2]))
+    rev = a[::-1].copy()
+    out.append(("negative-stride", rev[::-1]))
+    ro = a.copy()
+    ro.flags.writeable = False
+    out.append(("read-only", ro))
+    out.append(("column-nx1", a.reshape(-1, 1).copy()))
+    m2 = np.full((n, 3), -3.5)
+    m2[:, 1] = a
+    out.append(("column-view-nx1", m2[:, 1:2]))
+    out.append(("pandas-series", pd.Series(a.copy())))
+    out.append(("pandas-series-own-index", pd.Series(a.copy(), index=np.arange(n)[::-1] * 3 + 5)))
+    out.append(("list", [float(v) for v in a]))
+    return out
+
+
+def ens_layouts(e2):
+    import pandas as pd
+    e2 = np.ascontiguousarray(e2, dtype=np.float64)
+    n, p = e2.shape
+    out = []
+    with np.errstate(all="ignore"):
+        f32 = e2.astype(np.float32)
+    if np.array_equal(f32.astype(np.float64), e2, equal_nan=True):
+        out.append(("ens-float32", f32))
+    if np.isfinite(e2).all() and np.all(e2 == np.round(e2)):
+        out.append(("ens-int64", e2.astype(np.int64)))
+    out.append(("ens-fortran", np.asfortranarray(e2.copy())))
+    big = np.full((n, 2 * p + 1), 7.25)
+    big[:, 1::2] = e2
+    out.append(("ens-strided-columns", big[:, 1::2]))
+    bigr = np.full((2 * n + 1, p), -7.25)
+    bigr[1::2, :] = e2
+    out.append(("ens-strided-rows", bigr[1::2, :]))
+    ro = e2.copy()
+    ro.flags.writeable = False
+    out.append(("ens-read-only", ro))
+    out.append(("ens-dataframe", pd.DataFrame(e2.copy())))
+    return out
+
+
+def lclose(o, e, tol):
+    o, e = float(o), float(e)
+    if math.isnan(o) or math.isinf(o):
+        return False
+    return abs(o - e) <= tol * max(1.0, abs(e))
+
+
+def check_det_layouts(ctx, M, spec, T, obs, sim):
+    """bias / nse / kge of the same values in other layouts = the float64 C-contiguous result"""
+    tn = tlabel(spec)
+    case = {"kind": "detlayout", "trans": spec, "obs": encl(obs), "sim": encl(sim)}
+    xo = np.array(obs, dtype=np.float64)
+    xs = np.array(sim, dtype=np.float64)
+    lo = arr_layouts(obs)
+    ls = dict(arr_layouts(sim))
+    pairs = [(name, arr, ls[name]) for name, arr in lo if name in ls]
+    pairs += [("sim-only:" + name, xo.copy(), ls[name]) for name in ("float32", "int64") if name in ls]
+    for score, fn, kw in det_calls(M):
+        try:
+            base = float(fn(xo.copy(), xs.copy(), T, **kw))
+        except Exception:
+            ctx.count("layout.base_raised")
+            continue
+        if math.isnan(base) or math.isinf(base):
+            ctx.count("layout.base_not_finite")
+            continue
+        for name, ao, as_ in pairs:
+            try:
+                v = float(fn(ao, as_, T, **kw))
+            except Exception:
+                ctx.case(True, outcome="raise")
+                ctx.count("layout.rejected.%s:%s" % (tn, name))
+                continue
+            ctx.case(True, outcome=v if not math.isnan(v) else "nan")
+            ctx.count("layout.judged.%s" % name)
+            tol = TOL32 if name == "float32" else TOL
+            if not lclose(v, base, tol):
+                ctx.violation("%s:%s:layout=%s" % (score, tn, name) + (":nan" if math.isnan(v) else ""), dict(case, score=score, layout=name),
+                              "%s(%s%s) with the series given as %s (n=%d) = %r, the float64 C-contiguous call gives %r" % (
+                                  score, tn, spec["kw"], name, len(obs), v, base), observed=enc(v), expected=base)
+
+
+def check_corr_layouts(ctx, M, spec, T, obs, ens):
+    tn = tlabel(spec)
+    case = {"kind": "corrlayout", "trans": spec, "obs": encl(obs), "ens": [encl(r) for r in ens]}
+    xo = np.array(obs, dtype=np.float64)
+    e2 = np.array(ens, dtype=np.float64)
+    p = e2.shape[1]
+    if p == 1:
+        earg = e2[:, 0].copy()
+        evars = arr_layouts(list(earg))
+    else:
+        earg = e2
+        evars = ens_layouts(e2)
+    variants = [("obs:" + name, arr, earg.copy()) for name, arr in arr_layouts(obs)]
+    variants += [(name, xo.copy(), arr) for name, arr in evars]
+    for ctype, stat in CORR_VARIANTS:
+        score = "corr:%s:%s" % (ctype, stat)
+        try:
+            base = float(M.corr(xo.copy(), earg.copy(), T, stat=stat, type=ctype))
+        except Exception:
+            ctx.count("layout.base_raised")
+            continue
+        if math.isnan(base):
+            ctx.count("layout.base_not_finite")
+            continue
+        for name, ao, ae in variants:
+            try:
+                v = float(M.corr(ao, ae, T, stat=stat, type=ctype))
+            except Exception:
+                ctx.case(True, outcome="raise")
+                ctx.count("layout.rejected.%s:%s" % (tn, name))
+                continue
+            ctx.case(True, outcome=v if not math.isnan(v) else "nan")
+            ctx.count("layout.judged.%s" % name)
+            if not lclose(v, base, TOL):
+                ctx.violation("%s:%s:p=%d:layout=%s" % (score, tn, p, name) + (":nan" if math.isnan(v) else ""), dict(case, score=score, layout=name),
+                              "corr(%s%s, stat=%s, type=%s) with %s (n=%d, p=%d) = %r, the float64 C-contiguous call gives %r" % (
+                                  tn, spec["kw"], stat, ctype, name, len(obs), p, v, base), observed=enc(v), expected=base)
+
+
+def cat_layouts(vals, K):
+    import pandas as pd
+    a = np.array(vals, dtype=np.int64)
+    n = len(a)
+    out = [("int32", a.astype(np.int32)), ("float64", a.astype(np.float64)), ("float32", a.astype(np.float32)),
+           ("int16", a.astype(np.int16))]
+    if K <= 127:
+        out.append(("int8", a.astype(np.int8)))
+    if K <= 255:
+        out.append(("uint8", a.astype(np.uint8)))
+    if K <= 2:
+        out.append(("bool", a.astype(bool)))
+    big = np.full(2 * n + 1, 1, dtype=np.int64)
+    big[1::2] = a
+    out.append(("strided", big[1::2]))
+    ro = a.copy()
+    ro.flags.writeable = False
+    out.append(("read-only", ro))
+    out.append(("pandas-series", pd.Series(a.copy())))
+    out.append(("pandas-series-own-index", pd.Series(a.copy(), index=np.arange(n)[::-1] * 3 + 5)))
+    return out
+
+
+def check_cm_layouts(ctx, M, obs, sim, ncat):
+    K = max(max(obs), max(sim)) + 1
+    case = {"kind": "cmlayout", "obs": list(obs), "sim": list(sim), "ncat": ncat}
+    kw = {} if ncat is None else {"ncat": ncat}
+    try:
+        base = np.array(M.confusion_matrix(np.array(obs), np.array(sim), **kw), dtype=np.float64)
+    except Exception:
+        ctx.count("layout.base_raised")
+        return
+    ls = dict(cat_layouts(sim, K))
+    for name, ao in cat_layouts(obs, K):
+        try:
+            r = np.array(M.confusion_matrix(ao, ls[name], **kw), dtype=np.float64)
+        except Exception:
+            ctx.case(True, outcome="raise")
+            ctx.count("layout.rejected.cm:%s" % name)
+            continue
+        ctx.case(True, outcome=r.tobytes())
+        ctx.count("layout.judged.cm:%s" % name)
+        if r.shape != base.shape or not np.array_equal(r, base):
+            ctx.violation("confusion_matrix:layout=%s" % name, dict(case, layout=name),
+                          "category series given as %s (n=%d, %d categories, ncat=%r): table %s, with int64 arrays %s" % (
+                              name, len(obs), K, ncat, r.tolist() if r.size <= 36 else "shape %s sum %r" % (r.shape, float(r.sum())),
+                              base.tolist() if base.size <= 36 else "shape %s sum %r" % (base.shape, float(base.sum()))),
+                          observed=r.tolist() if r.size <= 36 else None, expected=base.tolist() if base.size <= 36 else None)
+
+
+def check_binary_layouts(ctx, M, tn_, fp, fn, tp):
+    import pandas as pd
+    table = [[tn_, fp], [fn, tp]]
+    case = {"kind": "binlayout", "table": table}
+    try:
+        base, _ = M.binary(table)
+    except Exception:
+        ctx.count("layout.base_raised")
+        return
+    a = np.array(table, dtype=np.int64)
+    big = np.full((4, 4), 5, dtype=np.int64)
+    big[::2, ::2] = a
+    variants = [("int64-array", a.copy()), ("fortran", np.asfortranarray(a.copy())), ("float64", a.astype(np.float64)),
+                ("int32", a.astype(np.int32)), ("strided", big[::2, ::2]), ("dataframe", pd.DataFrame(a.copy()))]
+    for name, arg in variants:
+        if name == "int32" and a.max() >= 2 ** 31:
+            continue
+        try:
+            sc, _ = M.binary(arg)
+        except Exception:
+            ctx.case(True, outcome="raise")
+            ctx.count("layout.rejected.binary:%s" % name)
+            continue
+        ctx.case(True)
+        ctx.count("layout.judged.binary:%s" % name)
+        for nm in BIN_NAMES:
+            b, v = float(base[nm]), float(sc[nm])
+            if not (lclose(v, b, TOL) or (math.isnan(b) and math.isnan(v))):
+                ctx.violation("binary:%s:layout=%s" % (nm, name), dict(case, layout=name),
+                              "binary(table as %s)[%s] = %r, with a nested list %r" % (name, nm, v, b), observed=enc(v), expected=enc(b))
+                break
+
+
+def run_ladder_unit(unit, ctx, M):
+    spec = TRANS[unit["t"]]
+    T = build_trans(spec)
+    first = True
+    for n in unit["ns"]:
+        ctx.count("ladder.n=%d" % n)
+        for kind in ("gen", "perfect", "int"):
+            obs, sim = ladder_pair(kind, n, spec)
+            io, is_ = info_of(T, obs), info_of(T, sim)
+            if first:
+                ctx.case(False, n=0, sample={"kind": "ladder", "trans": spec, "n": n, "obs[:12]": encl(obs[:12]), "sim[:12]": encl(sim[:12])})
+                first = False
+            ctx.count("ladder.det_pairs")
+            check_det(ctx, M, spec, T, io, is_, kind == "gen")
+            if kind != "perfect":
+                check_det_layouts(ctx, M, spec, T, obs, sim)
+            if kind == "gen":
+                check_meansim(ctx, M, spec, T, io)
+                if spec["name"] == "Identity":
+                    check_invariance(ctx, M, spec, T, io, is_)
+                # corr: single member and 3 members
+                ens1 = [[v] for v in sim]
+                ens3 = ladder_ens(n, spec, sim)
+                for ens in (ens1, ens3):
+                    ctx.count("ladder.corr_cases")
+                    check_corr(ctx, M, spec, T, io, ens)
+                    check_corr_layouts(ctx, M, spec, T, obs, ens)
+                # excludenull with scattered null values
+                on, sn = ladder_null(n, spec, obs, sim)
+                ctx.count("ladder.null_cases")
+                check_null(ctx, M, spec, T, on, sn, True)
+            if kind == "int":
+                ctx.count("ladder.corr_cases")
+                check_corr(ctx, M, spec, T, io, [[v] for v in sim])
+                check_corr_layouts(ctx, M, spec, T, obs, [[v, v + 1.0, float(i % 3)] for i, v in enumerate(sim)])
+
+
+def run_cmladder_unit(unit, ctx, M):
+    first = True
+    for n in unit["ns"]:
+        for K in unit["ks"]:
+            for pattern in (0, 1):
+                obs, sim = cm_ladder_pair(n, K, pattern)
+                for ncat in cm_ncats(obs, sim):
+                    if first:
+                        ctx.case(False, n=0, sample={"kind": "cmladder", "n": n, "K": K, "pattern": pattern, "ncat": ncat,
+                                                      "obs[:12]": obs[:12], "sim[:12]": sim[:12]})
+                        first = False
+                    ctx.count("ladder.cm_cases")
+                    ctx.count("ladder.cm.K=%d" % K)
+                    check_cm(ctx, M, obs, sim, ncat)
+                    if ncat is None or ncat == K:
+                        check_cm_layouts(ctx, M, obs, sim, ncat)
 
 # ---------------------------------------------------------------------------
 # units
@@ -836,6 +1205,23 @@ def units(tier, seed):
     large = [1, 3, 1000, big] if quick else [1, 2, 7, 1000, big, 10 ** 7]
     for v in large:
         us.append({"kind": "bin", "vals": large, "tn": v})
+    # ---- size ladder around powers of two (thresholds of blocked / fast paths), chunks of similar cost
+    lad = LADDER_Q if quick else LADDER_T
+    chunks, chunk, acc = [], [], 0
+    for n in lad:
+        chunk.append(n)
+        acc += n + 150
+        if acc >= 2400:
+            chunks.append(chunk)
+            chunk, acc = [], 0
+    if chunk:
+        chunks.append(chunk)
+    for ti in LADDER_TRANS:
+        for ch in chunks:
+            us.append({"kind": "ladder", "t": ti, "ns": ch})
+    for ch in chunks:
+        us.append({"kind": "cmladder", "ns": ch, "ks": [k for k in LADDER_K if k <= 6]})
+        us.append({"kind": "cmladder", "ns": ch, "ks": [k for k in LADDER_K if k > 6]})
     return us
 
 
@@ -855,6 +1241,7 @@ def run_det_unit(unit, ctx, M, tl):
     n = unit["n"]
     sims = [info_of(T, s) for s in itertools.product(alpha, repeat=n)]
     first = True
+    laid = False
     for o in series_with_prefix(alpha, n, unit["prefix"]):
         io = info_of(T, o)
         for is_ in sims:
@@ -862,6 +1249,9 @@ def run_det_unit(unit, ctx, M, tl):
                 ctx.case(False, n=0, sample={"kind": "det", "trans": spec, "obs": encl(io.vals), "sim": encl(is_.vals), "ex": unit["ex"]})
                 first = False
             check_det(ctx, M, spec, T, io, is_, unit["ex"])
+            if not laid and io.ok and is_.ok and not (degenerate(io.st) or degenerate(io.straw)) and io.vals != is_.vals:
+                check_det_layouts(ctx, M, spec, T, io.vals, is_.vals)       # first judged, imperfect pair of the unit
+                laid = True
             if unit["inv"]:
                 check_invariance(ctx, M, spec, T, io, is_)
         check_meansim(ctx, M, spec, T, io)
@@ -875,6 +1265,7 @@ def run_corr_unit(unit, ctx, M, tl):
     ealpha = shifted(spec, unit["eidx"])
     enss = [[list(flat[i * p:(i + 1) * p]) for i in range(n)] for flat in itertools.product(ealpha, repeat=n * p)]
     first = True
+    laid = False
     for o in series_with_prefix(oalpha, n, unit["prefix"]):
         io = info_of(T, o)
         for ens in enss:
@@ -882,6 +1273,9 @@ def run_corr_unit(unit, ctx, M, tl):
                 ctx.case(False, n=0, sample={"kind": "corr", "trans": spec, "obs": encl(io.vals), "ens": ens})
                 first = False
             check_corr(ctx, M, spec, T, io, ens)
+            if not laid and io.ok and not (degenerate(io.st) or degenerate(io.straw)) and len(set(tuple(r) for r in ens)) > 1:
+                check_corr_layouts(ctx, M, spec, T, io.vals, ens)            # first judged case with a non-constant ensemble
+                laid = True
 
 
 def run_corrnan_unit(unit, ctx, M, tl):
@@ -953,6 +1347,7 @@ def run_cm_unit(unit, ctx, M):
                 if first:
                     ctx.case(False, n=0, sample={"kind": "cm", "obs": list(o), "sim": list(s), "ncat": ncat})
                     first = False
+                    check_cm_layouts(ctx, M, list(o), list(s), ncat)
                 check_cm(ctx, M, list(o), list(s), ncat)
 
 
@@ -965,6 +1360,7 @@ def run_cmdev_unit(unit, ctx, M):
             if first:
                 ctx.case(False, n=0, sample={"kind": "cm", "obs": o, "sim": s, "ncat": ncat})
                 first = False
+                check_cm_layouts(ctx, M, o, s, ncat)
             check_cm(ctx, M, o, s, ncat)
 
 
@@ -978,6 +1374,7 @@ def run_bin_unit(unit, ctx, M):
                 if first:
                     ctx.case(False, n=0, sample={"kind": "bin", "table": [[tn_, fp], [fn, tp]]})
                     first = False
+                    check_binary_layouts(ctx, M, tn_, fp, fn, tp)
                 check_binary(ctx, M, tn_, fp, fn, tp)
 
 
@@ -1004,6 +1401,10 @@ def run_unit(unit, ctx):
         run_cmdev_unit(unit, ctx, M)
     elif k == "bin":
         run_bin_unit(unit, ctx, M)
+    elif k == "ladder":
+        run_ladder_unit(unit, ctx, M)
+    elif k == "cmladder":
+        run_cmladder_unit(unit, ctx, M)
     else:
         raise ValueError("unknown unit kind %r" % k)
 
@@ -1044,6 +1445,17 @@ def replay(case):
                    case.get("spearman", True))
     elif k == "cm":
         check_cm(ctx, M, case["obs"], case["sim"], case["ncat"])
+    elif k == "detlayout":
+        spec = case["trans"]
+        check_det_layouts(ctx, M, spec, build_trans(spec), [dec(v) for v in case["obs"]], [dec(v) for v in case["sim"]])
+    elif k == "corrlayout":
+        spec = case["trans"]
+        check_corr_layouts(ctx, M, spec, build_trans(spec), [dec(v) for v in case["obs"]], [[dec(v) for v in r] for r in case["ens"]])
+    elif k == "cmlayout":
+        check_cm_layouts(ctx, M, case["obs"], case["sim"], case["ncat"])
+    elif k == "binlayout":
+        (tn_, fp), (fn, tp) = case["table"]
+        check_binary_layouts(ctx, M, tn_, fp, fn, tp)
     elif k == "bin":
         (tn_, fp), (fn, tp) = case["table"]
         check_binary(ctx, M, tn_, fp, fn, tp)
